@@ -1,11 +1,9 @@
 package main
 
 import (
-	"bufio"
 	"encoding/json"
 	"fmt"
 	"os"
-	"os/exec"
 	"path/filepath"
 	"strings"
 
@@ -94,38 +92,26 @@ func cmdJob(args []string) int {
 		job["knobs"] = knobs
 	}
 	jb, _ := json.Marshal(job)
-	cmd := exec.Command(b.Worker, "-test.run", "^TestVerifWorker$", "-test.timeout", "0")
+	var j Job
+	json.Unmarshal(jb, &j)
+	if gm := os.Getenv("VERIF_GOMAXPROCS"); gm != "" {
+		_ = gm
+	}
 	gm := os.Getenv("VERIF_GOMAXPROCS")
 	if gm == "" {
 		gm = "1"
 	}
-	cmd.Env = append(os.Environ(), "VERIF_WORKER=1", "GOMAXPROCS="+gm)
-	cmd.Stdin = strings.NewReader(string(jb) + "\n")
-	cmd.Stderr = os.Stderr
-	out, _ := cmd.StdoutPipe()
-	if err := cmd.Start(); err != nil {
-		fmt.Fprintln(os.Stderr, err)
-		return 2
+	res := RunOne(b.Worker, &j, gm)
+	for _, l := range res.Log {
+		fmt.Println(l)
 	}
-	sc := bufio.NewScanner(out)
-	sc.Buffer(make([]byte, 1<<20), 256<<20)
-	for sc.Scan() {
-		l := sc.Text()
-		if strings.HasPrefix(l, "@@R ") {
-			var res map[string]interface{}
-			json.Unmarshal([]byte(l[4:]), &res)
-			if lg, ok := res["log"].([]interface{}); ok {
-				for _, x := range lg {
-					fmt.Println(x)
-				}
-			}
-			delete(res, "log")
-			pb, _ := json.MarshalIndent(res, "", " ")
-			fmt.Println(string(pb))
-		} else {
-			fmt.Println(l)
-		}
+	if res.Crashed {
+		fmt.Println(panicLine(res.CrashText))
+		fmt.Println(lastN(firstPanic(res.CrashText), 2500))
 	}
-	cmd.Wait()
+	res.Log = nil
+	res.CrashText = ""
+	pb, _ := json.MarshalIndent(res, "", " ")
+	fmt.Println(string(pb))
 	return 0
 }
